@@ -113,7 +113,7 @@ def run(prop: str, tier: str, replay: str = None) -> int:
                 for cfg in CONFIGS[prop][tier]:
                     part = os.path.join(wd, "part.ndjson")
                     res = tlc.generate("GenG1.tla", cfg, "CASE", part,
-                                       timeout=1500 if tier == "thorough" else 400)
+                                       timeout=2400 if tier == "thorough" else 900)
                     res["ok"] = True
                     rep.add_mc(cfg, res)
                     with open(part) as f:
